@@ -137,7 +137,7 @@ Theorem C01_rendered_parameters_are_the_deep_merge_of_the_inlined_walk :
     exists seen docs ry m,
       NoDup seen /\ Forall2 (class_params cfg tbl) seen docs /\ reclass_doc cfg meta = Some ry /\
       merge_layers_try (docs ++ [ry; params_doc ndoc]) = Ok m /\
-      (Forall clean_layer (docs ++ [ry; params_doc ndoc]) ->
+      (Forall sclean_layer (docs ++ [ry; params_doc ndoc]) ->
        forall ys', Forall layer_ok ys' -> Forall2 (ytw m) (docs ++ [ry; params_doc ndoc]) ys' ->
        forall g, match deep_merge (S g) ys' with
                  | SOk v => unflag (VMap (n_params r)) = v
